@@ -17,6 +17,8 @@ The product is bounded as "one or two dimensions at full alphabet x the rest at 
   P3  single signer, ALL signature-length tuples x ALL public keys (4) x ALL SDK tuples (6), layouts v2 / v3 / v3.1-only
   P5  single signer (+ one 3-signer case per tuple), element SLACK: 4 / 12 extra bytes after the fields of one digest and/or
       signature element (inside its length prefix), every element position of 6 length tuples, layouts v2 / v3 / v3.1-only / v3+v3.1
+  P6  maxima: 70000-byte digest, 65536/65535-byte signatures, 40 digests + 40 signatures, 8 certificates, a 76800-byte attribute,
+      8 signers; layouts v2 / v3 / v2+v3+v3.1
   P4  ALL layouts x ALL signer lists of length 0..3 over a reduced alphabet of 6 signer shapes (10 in thorough) x zip comment
 Oracle = the generating model: is_signed_v2/v3/v31 true exactly when a block with that id is present;
 has_duplicate_apk_signature_ids() (asked first on a fresh object, and again after the flags) <=> some id occurs twice;
@@ -31,7 +33,7 @@ from mc.core import Acc
 
 PROPERTY = "C33"
 LEVEL = "exploration"
-RULE = ("APK Signing Blocks over 43 id layouts (21 with filled values + 22 with an empty-valued pair first/middle/last) x 0..3 signers x {digest, signature length tuples of size <= 3 over {0,1,32,64}} x "
+RULE = ("APK Signing Blocks over 45 id layouts (23 with filled values + 22 with an empty-valued pair first/middle/last) x 0..3 signers x {digest, signature length tuples of size <= 3 over {0,1,32,64}} x "
         "certificate lists x attribute blobs x public keys x v3 SDK boundary tuples, bounded as four sub-products (two dimensions "
         "at full alphabet, the rest at base); written by gen/apkgen into a zip before the central directory; distinct by "
         "construction; non-trivial = the block holds a v2/v3/v3.1 id")
@@ -55,7 +57,9 @@ MANIFEST = {
 NSH = 64
 LENS = [0, 1, 32, 64]
 ALGS = [0x0103, 0x0104, 0x0201, 0x0101, 0x0102, 0x0202, 0x0301, 0x0421]
-CERTS = [[], ["rsa"], ["ec"], ["rsa", "ec"], ["ec", "rsa"], ["rsa", "rsa"], ["dsa", "rsa"]]
+CERTS = [[], ["rsa"], ["ec"], ["rsa", "ec"], ["ec", "rsa"], ["rsa", "rsa"], ["dsa", "rsa"],
+         ["rsa", "ec", "dsa", "rsa2", "ec2", "dsa2", "rsa", "ec"]]        # index 7: only used by the P6 maxima cases
+NCERTS_ENUM = 7
 KEYS = ["rsa", "ec", "dsa", ""]
 SDKS = [(24, 0x7FFFFFFF, 24, 0x7FFFFFFF), (0, 0, 0, 0), (28, 0xFFFFFFFF, 28, 0xFFFFFFFF), (33, 33, 33, 33),
         (0x7FFFFFFF, 0x80000000, 1, 2), (0xFFFFFFFF, 0xFFFFFFFE, 0x80000000, 0x7FFFFFFF)]
@@ -65,6 +69,7 @@ COMMENTS = ["", "verif comment PK\x05 PK\x05\x05 end"]
 # layout: name -> [(id tag, role)]   role A = enumerated signers, B / C = fixed different signer lists, None = unknown id
 LAYOUTS = {
     "none": None, "empty-block": [],
+    "decoy": [("v2", "A"), ("unk2", None), ("v3", "A"), ("v31", "B"), ("v2", "B")],      # not enumerated: the decoy history only
     "v2": [("v2", "A")], "v3": [("v3", "A")], "v31-only": [("v31", "A")], "unknown": [("unk", None)],
     "v2+v3": [("v2", "A"), ("v3", "A")],
     "v3A+v31B": [("v3", "A"), ("v31", "B")], "v3B+v31A": [("v3", "B"), ("v31", "A")], "v31A+v3B": [("v31", "A"), ("v3", "B")],
@@ -76,6 +81,9 @@ LAYOUTS = {
     "unk+unk": [("unk", None), ("unk2", None)],
     "v3A+v31A+v31B": [("v3", "A"), ("v31", "A"), ("v31", "B")],
     "v3B+v3A+v31C": [("v3", "B"), ("v3", "A"), ("v31", "C")],
+    # v2 and v3 together, BOTH duplicated, interleaved; the enumerated signers first resp. second
+    "v2A+v3A+v2B+v3B": [("v2", "A"), ("v3", "A"), ("v2", "B"), ("v3", "B")],
+    "v3B+v2B+v3A+v2A": [("v3", "B"), ("v2", "B"), ("v3", "A"), ("v2", "A")],
     # pairs with an EMPTY value (role E: the pair is 12 bytes, uint64 size = 4) in first / middle / last position, for every id and
     # as duplicate of an earlier id.  Only the flags are judged for a scheme whose FIRST block is empty.
     "v2E": [("v2", "E")], "v3E": [("v3", "E")], "v31E": [("v31", "E")],
@@ -88,7 +96,7 @@ LAYOUTS = {
     "v3A+v2E+v31A": [("v3", "A"), ("v2", "E"), ("v31", "A")], "v2A+v2E+v3A": [("v2", "A"), ("v2", "E"), ("v3", "A")],
     "v2A+unkE+v3A": [("v2", "A"), ("unk", None), ("v3", "A")], "unkE+unk9+v2A": [("unk", None), ("unk2", None), ("v2", "A")],
 }
-LAYOUT_ORDER = list(LAYOUTS)
+LAYOUT_ORDER = [k for k in LAYOUTS if k != "decoy"]
 
 BASE = {"d": [32], "s": [64], "c": 1, "a": 0, "k": 0, "sdk": 0}
 SHAPES = [
@@ -105,6 +113,8 @@ SHAPES_MORE = [
     {"d": [], "s": [64], "c": 1, "a": 0, "k": 2, "sdk": 2},
     {"d": [1, 1], "s": [0, 1, 32], "c": 3, "a": 0, "k": 1, "sdk": 4},
 ]
+BIG_SHAPES = [{"d": [70000], "s": [65536, 65535], "c": 1, "a": 0, "k": 0, "sdk": 0},
+              {"d": [1] * 40, "s": [0] * 40, "c": 7, "a": 3, "k": 0, "sdk": 5}]
 SLACK_TUPLES = [(32,), (0,), (32, 64), (0, 1), (1, 32, 64), (64, 0, 32)]
 SLACK = {4: b"\xEE\xEE\xEE\xEE", 12: b"\x08\x00\x00\x00\x21\x04\x00\x00\x00\x00\x00\x00"}   # 12: looks like an element (0x421, b"")
 ROLE_B = [{"d": [1, 32], "s": [1], "c": 6, "a": 1, "k": 2, "sdk": 3}]
@@ -125,7 +135,7 @@ def cases(ctx):
                 yield ("P1", lay, [dict(BASE, d=d, s=s)], 0)
     for lay in ("v2", "v3"):
         for d in LT:
-            for c in range(len(CERTS)):
+            for c in range(NCERTS_ENUM):
                 for a in range(NATTR):
                     yield ("P2", lay, [dict(BASE, d=d, c=c, a=a)], 0)
     for lay in ("v2", "v3", "v31-only"):
@@ -148,6 +158,11 @@ def cases(ctx):
                         yield ("P5", lay, [sh], 0)
                         if i == 0 and n == 12 and which == "ds":
                             yield ("P5", lay, [SHAPES[2], sh, dict(sh, dslack=[[j, 4] for j in range(len(t))])], 1)
+    # P6: one representative at large sizes / counts of every length field the generator controls
+    for lay in ("v2", "v3", "v2+v3+v31"):
+        for sh in BIG_SHAPES:
+            yield ("P6", lay, [sh], 1)
+        yield ("P6", lay, [BIG_SHAPES[0]] + [BASE] * 7, 0)          # 8 signers
     shapes = SHAPES + (SHAPES_MORE if ctx.thorough else [])
     for n in range(4):
         for lay in LAYOUT_ORDER:
@@ -169,6 +184,8 @@ def attrs(a):
         return b""
     if a == 1:
         return G.attrs_blob([(0xBEEFF00D, G.u32(3))])
+    if a == 3:
+        return G.attrs_blob([(0xBEEFF00D, G.u32(3)), (0x3BA06F8C, bytes(range(256)) * 300)])     # 76800-byte attribute
     return G.attrs_blob([(0xBEEFF00D, G.u32(3)), (0x3BA06F8C, b"\x01\x02\x03\x04\x05")])
 
 
@@ -266,9 +283,29 @@ def first_diff(got, exp, v3):
     return None
 
 
+_decoy = []
+
+
+def decoy():
+    """DECOY HISTORY: a fixed APK whose signing block holds the SAME ids (v2, v3, v3.1, unknown, v2 again) with other contents
+    is opened and queried through the same calls before every judged case (inside judge(), so also in replay())."""
+    from androguard.core import apk as A
+    if not _decoy:
+        _decoy.append(build(("decoy", "decoy", ROLE_C, 1))[0])
+    try:
+        a = A.APK(_decoy[0], raw=True, skip_analysis=True)
+        a.has_duplicate_apk_signature_ids(), a.is_signed_v2(), a.is_signed_v3(), a.is_signed_v31(), a.is_signed()
+        for sfx in ("v2", "v3", "v31"):
+            getattr(a, "get_certificates_der_" + sfx)(), getattr(a, "get_public_keys_der_" + sfx)()
+        a.get_certificates()
+    except Exception:     # noqa
+        pass
+
+
 def judge(case):
     """-> list of (key, msg)"""
     from androguard.core import apk as A
+    decoy()
     raw, model = build(case)
     part, lay, shapes, cm = case
     tag = "%s layout=%s signers=%r comment=%d" % (part, lay, shapes, cm)
@@ -377,6 +414,25 @@ def judge(case):
                                 "%s: get_public_keys_%s() objects do not re-encode to the encoded keys" % (tag, sfx)))
         except Exception as e:     # noqa
             out.append(("%s:accessor-exception:%s" % (label, type(e).__name__), "%s: accessor raised %s: %s" % (tag, type(e).__name__, e)))
+    # alternative entry points: is_signed() / is_signed_v1() and the union get_certificates()
+    try:
+        want = any(model["blocks"][s] for s in ("v2", "v3", "v31"))
+        if bool(a.is_signed()) != want or a.is_signed_v1():
+            out.append(("flag:is_signed:%s" % lay, "%s: is_signed() = %r, is_signed_v1() = %r (no META-INF signature; scheme ids present: %r)"
+                        % (tag, a.is_signed(), a.is_signed_v1(), want)))
+        if not out and not any(b and b[0] is None for b in model["blocks"].values()):
+            exp_all = []
+            for s in ("v2", "v3", "v31"):
+                for e in (model["blocks"][s][0] if model["blocks"][s] else []):
+                    for c in e["certs"]:
+                        if c not in exp_all:
+                            exp_all.append(c)
+            got_all = [c.dump() for c in a.get_certificates()]
+            if got_all != exp_all:
+                out.append(("get_certificates:union:%s" % lay, "%s: get_certificates() gave %d certificates, the first blocks of v2, v3, "
+                            "v3.1 hold %d distinct ones (in that order)" % (tag, len(got_all), len(exp_all))))
+    except Exception as e:     # noqa
+        out.append(("alt-entry-point:exception:%s" % type(e).__name__, "%s: %s: %s" % (tag, type(e).__name__, e)))
     return out
 
 
@@ -395,7 +451,10 @@ def space(ctx):
             "cases_per_part": per,
             "element_slack": {"bytes": [4, 12], "tuples": [list(t) for t in SLACK_TUPLES], "lists": ["digests", "signatures", "both"],
                               "position": "every element index"},
-            "bounding": "P5 slack at every position; P1 digests x signatures full; P2 digests x certificates x attributes full; P3 signatures x keys x SDK full; "
+            "P6_maxima": [{k: (v if len(str(v)) < 60 else "%d x %r" % (len(v), v[0])) for k, v in sh.items()} for sh in BIG_SHAPES],
+            "decoy_history": "an APK whose block holds v2, unknown, v3, v3.1, v2-again with other contents is queried first, inside judge()",
+            "alternative_entry_points": ["is_signed", "is_signed_v1", "get_certificates (ordered distinct union)"],
+            "bounding": "P6 one representative per size field; P5 slack at every position; P1 digests x signatures full; P2 digests x certificates x attributes full; P3 signatures x keys x SDK full; "
                         "P4 every layout x every list of 0..3 signers over the shape alphabet x comment"}
 
 
@@ -430,10 +489,10 @@ def finalize(ctx, acc):
         acc.harness_error("vacuous: only %d distinct (layout, signer count, digest shape) classes" % len(acc.outcomes))
     nshape = len(SHAPES) + (len(SHAPES_MORE) if ctx.thorough else 0)
     per_layout = sum(nshape ** n for n in range(4)) * len(COMMENTS)
-    for lay in LAYOUTS:
+    for lay in LAYOUT_ORDER:
         if acc.extra.get("P4_layout:" + lay) != per_layout:
             acc.harness_error("P4 layout %s: %r cases judged, %d in the space" % (lay, acc.extra.get("P4_layout:" + lay), per_layout))
-    for p in ("P1", "P2", "P3", "P4", "P5"):
+    for p in ("P1", "P2", "P3", "P4", "P5", "P6"):
         if not acc.extra.get("cases_" + p):
             acc.harness_error("vacuous: part %s empty" % p)
     # self-test of the model/serialiser pair: the block written for a known case must contain what the model says
